@@ -13,7 +13,7 @@ fn usage() -> ! {
 /// Entry point of a group binary. `cases(prop, ctx)` returns None for an unknown property;
 /// `tables(prop, out_dir)` writes regenerated Coq tables (Gen/*.v) into out_dir.
 pub fn run_main(cases: impl Fn(&str, &Ctx) -> Option<Vec<Case>>, tables: impl Fn(&str, &str) -> bool) {
-    std::panic::set_hook(Box::new(|_| {}));
+    if std::env::var("VH_DEBUG").is_err() { std::panic::set_hook(Box::new(|_| {})); }
     let args: Vec<String> = std::env::args().collect();
     if args.len() < 3 { usage() }
     let prop = args[1].as_str();
